@@ -223,3 +223,4 @@ def run(ctx):
     rule_separator(ctx)
     rule_shadowing(ctx)
     rule_for_scope(ctx)
+    ctx.include("C10.6", "SSA keeps same-named variables apart: phi statements are matched by the full (name, suffix) identity and only locals are versioned (shared with C14.3)", c14.rule_phis_and_locals)
